@@ -510,6 +510,9 @@ size_t ZSTD_seekable_decompress(ZSTD_seekable* zs, void* dst, size_t len, unsign
         }
 
         while (zs->decompressedOffset < offset + len) {
+            /* end of the current frame according to the seek table : the frame must not regenerate more than that,
+             * otherwise its surplus would be returned in place of the next frame's data */
+            unsigned long long const frameEnd = zs->seekTable.entries[targetFrame + 1].dOffset;
             size_t toRead;
             ZSTD_outBuffer outTmp;
             size_t prevOutPos;
@@ -517,9 +520,9 @@ size_t ZSTD_seekable_decompress(ZSTD_seekable* zs, void* dst, size_t len, unsign
             size_t forwardProgress;
             if (zs->decompressedOffset < offset) {
                 /* dummy decompressions until we get to the target offset */
-                outTmp = (ZSTD_outBuffer){zs->outBuff, (size_t) (MIN(SEEKABLE_BUFF_SIZE, offset - zs->decompressedOffset)), 0};
+                outTmp = (ZSTD_outBuffer){zs->outBuff, (size_t) (MIN(SEEKABLE_BUFF_SIZE, MIN(offset, frameEnd) - zs->decompressedOffset)), 0};
             } else {
-                outTmp = (ZSTD_outBuffer){dst, len, (size_t) (zs->decompressedOffset - offset)};
+                outTmp = (ZSTD_outBuffer){dst, (size_t) MIN(len, frameEnd - offset), (size_t) (zs->decompressedOffset - offset)};
             }
 
             prevOutPos = outTmp.pos;
